@@ -11,6 +11,7 @@ import Proofs.ProjSrc
 import PydapModel.Derive
 import Proofs.Derive
 import Props.C04
+import Proofs.ProjSrcFull
 namespace Pydap.C14
 open Pydap Pydap.Proxy
 
@@ -276,6 +277,51 @@ theorem C14_source_projection_whole (t : Tmpl) (p : SeqProxy) (hs : p.subChildre
   rw [src_seq_projection_eq, projSpec_model t p true (.inl rfl)]
   simp [SeqClient.projText, SeqClient.proxyId, seqIds, hs, SeqClient.joinWith]
 
+
+/-! non-vacuity of `C14_derived_reads_reference` -/
+section DerivedExamples
+open Pydap.Seq Pydap.SeqClient Pydap.Derive Pydap.TableVal
+def dNames : List Name := [['i'], ['f'], ['t']]
+def dRows : List (List Val) :=
+  [[.num 16, .num 24, .str ['a']], [.num 32, .num 40, .str ['b']], [.num 48, .num 8, .str ['c']],
+   [.num 64, .num 72, .str ['d']], [.num 80, .num 56, .str ['e']], [.num 96, .num 32, .str ['g']]]
+/-- `s[["f","i"]][0:6:2][["t","i"]][1:3]["t"][(s.t != "a")]`: a strided slice, a second column list on the
+    column-restricted proxy, a slice of the strided slice, the child, a condition on the single column -/
+def dChain : List (DStep Val) :=
+  [.cols [['f'], ['i']], .sl ⟨some 0, some 6, some 2⟩, .cols [['t'], ['i']], .sl ⟨some 1, some 3, none⟩,
+   .child ['t'], .colfilt ⟨['t'], .ne, .val (.str ['a'])⟩ []]
+
+example : ChainOk encVal dNames false dChain := by
+  refine ⟨⟨rfl, by decide, by decide, by decide⟩, ⟨by decide, by decide, by decide⟩,
+    ⟨rfl, by decide, by decide, by decide⟩, ⟨by decide, by decide, by decide⟩, ⟨rfl, by decide⟩, ?_, trivial⟩
+  intro x hx
+  simp at hx
+  subst hx
+  exact ⟨by decide, by decide⟩
+example : RangeOk ((dChain.map toCOp).foldl (accStep encVal ['s']) (openAcc ['s'] dNames ⟨none, []⟩)).sl := by
+  right
+  exact ⟨2, 6, 2, by decide, by decide, by decide, by decide⟩
+-- rows 0, 2, 4 of those with t != "a", then [1:3] of these, column t
+example : refSelection cmpVal dNames dChain dRows = some [[.str ['d']], [.str ['g']]] := by decide
+-- the request the derived column writes, and the server's answer to it
+example : (serveQuery cmpVal encVal litVal .numpy ['s'] dNames dRows "s[2:2:5].t&s.t!=\"a\"".toList)
+    = some (.ok [.row [.str ['d']], .row [.str ['g']]]) := by decide
+-- the last column list decides the order
+example : refSelection cmpVal dNames [.cols [['f'], ['i']], .cols [['i'], ['f']], .idx 2] dRows
+    = some [[.num 48, .num 8]] := by decide
+end DerivedExamples
+
+open MiniPy in
+/-- **the whole of `SequenceProxy._projection`**: for every proxy the interpreted body (all three branches: selected
+    columns, single column — fix 3339666 —, whole sequence) returns the model's `projFull`, the projection inside the
+    request text of `C14_derived_reads_reference`; `isinstance(self.template, SequenceType)` is read as "the template
+    has children declared" (`t.keys ≠ []`: a flat sequence without columns is outside the model) -/
+theorem C14_source_projection_full (t : Tmpl) (p : SeqProxy) :
+    runItem (proxyEnv t p (decide (t.keys ≠ []))) Gen.src_seq_projection "@ret"
+      = .ok (.str (codesOf (SeqClient.projFull t p))) := by
+  unfold proxyEnv
+  rw [src_seq_projection_eq, projSpec_full]
+
 section SourceExamples
 open MiniPy
 
@@ -294,6 +340,9 @@ example : runItem (proxyEnv ⟨["s".toList], ["f".toList], ["f".toList]⟩ srcP 
     = .ok (.str (codesOf "s".toList)) := by decide +kernel
 example : runItem (proxyEnv ⟨["s".toList], ["f".toList], ["f".toList]⟩ srcP true) Gen.src_seq_projection "@ret"
     = .ok (.str (codesOf "s[1:1:2]".toList)) := by decide +kernel
+
+-- the single column `s.f` with the range `[1:3]`: the range goes on `s`
+example : SeqClient.projFull ⟨["s".toList, "f".toList], [], []⟩ srcP = "s[1:1:2].f".toList := by decide +kernel
 
 end SourceExamples
 
